@@ -632,24 +632,28 @@ impl Array {
         if self.dimensions == dimensions {
             self
         } else {
-            let flatten_dimension_count = self.dimensions.len().saturating_sub(dimensions.len());
+            // sum over the leading dimensions missing from the target, and over its unit dimensions
+            let offset = self.dimensions.len().saturating_sub(dimensions.len());
+            let mut indices = vec![0; self.dimensions.len()];
+            let mut values = vec![0.0; dimensions.iter().product()];
+            for value in self.values.iter() {
+                let index = dimensions.iter().enumerate().fold(0, |acc, (j, d)| {
+                    acc * d + if *d == 1 { 0 } else { indices[offset + j] }
+                });
 
-            let op: SlicedOp = Box::new(move |output_slice, arrays| {
-                let stride = output_slice.len();
-                for (i, output) in output_slice.iter_mut().enumerate() {
-                    *output += arrays[0].iter().skip(i).step_by(stride).sum::<Float>();
+                values[index] += *value;
+
+                for (x, d) in indices.iter_mut().zip(&self.dimensions).rev() {
+                    if *x == *d - 1 {
+                        *x = 0;
+                    } else {
+                        *x += 1;
+                        break;
+                    }
                 }
-            });
+            }
 
-            Array::sliced_op(
-                vec![&self],
-                &op,
-                None,
-                &self.dimensions,
-                dimensions,
-                flatten_dimension_count + 1,
-                0,
-            )
+            Array::from((dimensions.to_vec(), values))
         }
     }
 
